@@ -59,6 +59,19 @@ func buildByHistory(t *rapid.T, cmds []database.Command, o gen.CmdOpts) (*databa
 		src := gen.Load(t, cmds) // commands as real callers have them (cache fields populated)
 		cdb.UpdateDatabase(src.Commands)
 		return cdb.Database, hist
+	case "republish":
+		// the list a caching layer serves is edited or re-ordered IN PLACE (same slice, same length) and
+		// that same slice is handed back to UpdateDatabase - a periodic reload that re-publishes its list
+		old := make([]database.Command, len(cmds))
+		for i := range old {
+			old[i] = gen.Command(o).Draw(t, "old-entry")
+		}
+		cdb := database.NewCachedDatabase(gen.Load(t, old))
+		cdb.SearchWithOptionsAndCache("find files", database.SearchOptions{Limit: 5, UseNLP: true})
+		c03Warm(t, cdb.Database)
+		copy(cdb.Commands, gen.Load(t, cmds).Commands)
+		cdb.UpdateDatabase(cdb.Commands)
+		return cdb.Database, hist
 	case "empty-refill":
 		// a searched database is emptied, searched while empty, and refilled with as many (other) entries
 		old := make([]database.Command, len(cmds))
@@ -178,7 +191,7 @@ func c03Warm(t *rapid.T, db *database.Database) {
 	}
 }
 
-var c03Histories = []string{"load", "merge", "replace", "grow", "edit-grow", "empty-refill", "made", "made-edit-grow"}
+var c03Histories = []string{"load", "merge", "replace", "grow", "edit-grow", "empty-refill", "made", "made-edit-grow", "republish", "republish"}
 
 func sameCommands(db *database.Database, cmds []database.Command) string {
 	if len(db.Commands) != len(cmds) {
